@@ -278,6 +278,11 @@ def run_property(mod, pid, tier, seed, only_shard=None, jobs=None):
 				if res['rc'] != 0:
 					inconclusive.append(f'shard {s.get("name")} exited rc={res["rc"]}: {res["log_tail"][-400:]}')
 				merged['shards'].append(dict(name=s.get('name'), status='ok', evals=res['evals'], wall_s=round(res['wall'], 2)))
+				if s.get('sanitizer'):
+					sr = merged.setdefault('sanitizer_runs', {}).setdefault(s['sanitizer'], dict(shards=0, oracle_evaluations=0, reports=0))
+					sr['shards'] += 1
+					sr['oracle_evaluations'] += res['evals']
+					sr['reports'] += sum(1 for v in res['violations'] if str(v.get('mech', '')).startswith('sanitizer-'))
 		allh = np.unique(np.concatenate(merged['hashes'])) if merged['hashes'] else np.zeros(0, 'u8')
 		merged['distinct'] = int(len(allh))
 		if merged.get('reach_list'):
@@ -321,6 +326,7 @@ def run_property(mod, pid, tier, seed, only_shard=None, jobs=None):
 		shards=merged['shards'],
 		inconclusive=inconclusive,
 		known_findings_seen=sorted(known_hit),
+		sanitizer_runs=merged.get('sanitizer_runs', {}),
 		violations_by_mechanism={k: int(v) for k, v in merged['viol_per_mech'].items()},
 		verdict=('violated' if n_unknown else ('inconclusive' if inconclusive else 'held-on-observed')),
 	)
